@@ -65,6 +65,16 @@ def parseImplDelta? : List String → Option ImplDelta
 def statusClose (a b : Status) : Bool :=
   close a.shares b.shares && close a.all b.all && closeOpt a.acb b.acb
 
+/-- the largest money figure of a report: a 28-digit decimal computation cannot resolve differences
+    below about 1e-28 of it (1e-22 is allowed) -/
+def caseMag (ds : List Delta) : Rat :=
+  ds.foldl (fun m d =>
+    let vals := [rabs (d.pre.acb.getD 0), rabs (d.post.acb.getD 0), rabs (d.gain.getD 0)]
+    vals.foldl (fun m v => if m < v then v else m) m) 0
+
+def statusCloseAt (mag : Rat) (a b : Status) : Bool :=
+  close a.shares b.shares && close a.all b.all && closeOptAt mag a.acb b.acb
+
 def failureName : Failure → String
   | .err k => "err:" ++ (reprStr k)
   | .panic s => "panic:" ++ (reprStr s)
@@ -80,33 +90,36 @@ def tinyDelta (d : Delta) : Bool :=
   | .sfla sh ps => rabs (sh * ps) ≤ 1 / pow10 9
   | _ => false
 
-def cmpDelta (i : Nat) (m : Delta) (x : ImplDelta) : Option String :=
+def cmpDelta (mag : Rat) (i : Nat) (m : Delta) (x : ImplDelta) : Option String :=
   if m.tx.aff ≠ x.aff then some s!"row {i}: affiliate model={m.tx.aff.key} impl={x.aff.key}"
   else if actName m.tx.act ≠ x.act then some s!"row {i}: action model={actName m.tx.act} impl={x.act}"
-  else if !statusClose m.pre x.pre then
+  else if !statusCloseAt mag m.pre x.pre then
     some s!"row {i}: pre status model=({ratToString m.pre.shares},{ratToString m.pre.all},{showOpt m.pre.acb}) impl=({ratToString x.pre.shares},{ratToString x.pre.all},{showOpt x.pre.acb})"
-  else if !statusClose m.post x.post then
+  else if !statusCloseAt mag m.post x.post then
     some s!"row {i}: post status model=({ratToString m.post.shares},{ratToString m.post.all},{showOpt m.post.acb}) impl=({ratToString x.post.shares},{ratToString x.post.all},{showOpt x.post.acb})"
-  else if !closeOptAt (rabs (m.pre.acb.getD 0) + rabs (match m.sfl with | some s => s.loss | none => 0)) m.gain x.gain then
+  else if !closeOptAt mag m.gain x.gain then
     some s!"row {i}: gain model={showOpt m.gain} impl={showOpt x.gain}"
   else
     match m.sfl, x.sfl with
     | none, none => none
     | some a, some b =>
-      if !closeAt (rabs (m.pre.acb.getD 0)) a.loss b.loss then some s!"row {i}: sfl amount model={ratToString a.loss} impl={ratToString b.loss}"
+      if !closeAt mag a.loss b.loss then some s!"row {i}: sfl amount model={ratToString a.loss} impl={ratToString b.loss}"
       else if !close (a.num / a.den) (b.num / b.den) then some s!"row {i}: sfl ratio model={ratToString a.num}/{ratToString a.den} impl={ratToString b.num}/{ratToString b.den}"
       else if a.over ≠ b.over && rabs a.overMargin > 1 / pow10 9 then some s!"row {i}: over-applied flag model={a.over} impl={b.over}"
       else none
     | some a, none => if rabs a.loss ≤ 1 / pow10 9 then none else some s!"row {i}: sfl model={ratToString a.loss} impl=none"
     | none, some b => if rabs b.loss ≤ 1 / pow10 9 then none else some s!"row {i}: sfl model=none impl={ratToString b.loss}"
 
-partial def cmpDeltas (i : Nat) : List Delta → List ImplDelta → Option String
+partial def cmpDeltasAt (mag : Rat) (i : Nat) : List Delta → List ImplDelta → Option String
   | [], [] => none
   | m :: ms, x :: xs =>
-    match cmpDelta i m x with
+    match cmpDelta mag i m x with
     | some e => some e
-    | none => cmpDeltas (i + 1) ms xs
+    | none => cmpDeltasAt mag (i + 1) ms xs
   | ms, xs => some s!"row count model={i + ms.length} impl={i + xs.length}"
+
+def cmpDeltas (i : Nat) (ms : List Delta) (xs : List ImplDelta) : Option String :=
+  cmpDeltasAt (caseMag ms) i ms xs
 
 /-- Decisions of the model that sit within 1e-9 of (but not on) their threshold. -/
 def nearThreshold (ds : List Delta) : Bool :=
